@@ -1,9 +1,10 @@
 (** ReaderCheck: executable oracles of C04 and C05, evaluated on what the IMPLEMENTATION returned,
-    and the correspondence test of ReaderImpl.  Imports only the model and the grammar
-    definitions (no proof file). *)
+    and the correspondence test of ReaderImpl.  Imports only the model, the grammar and the
+    definition files Reader/Lin.v and Reader/UnitsDefs.v (no proof file). *)
 From Coq Require Import String.
 From Coq Require Import List Ascii ZArith Bool.
-From CGV Require Import Base.PyBase Base.PyVal Base.NxGraph Dialect.DialectImpl Reader.ReaderImpl Reader.Grammar.
+From CGV Require Import Base.PyBase Base.PyVal Base.NxGraph Dialect.DialectImpl Reader.ReaderImpl Reader.Grammar
+     Reader.Lin Reader.UnitsDefs.
 Import ListNotations.
 Open Scope Z_scope.
 
@@ -96,8 +97,14 @@ Definition corr_ok5 (c : case5) : bool :=
   && agrees (read_cgsmiles (fo_of_table (d_fo c)) (d_short c)) (d_impl_short c)
   && agrees (read_cgsmiles (fo_of_table (d_fo c)) (d_long c)) (d_impl_long c).
 
+(** the defect classes are cut down to what is NOT proved correct: an AST that satisfies the decidable side
+    condition [units_ok] of the unbounded theorem C05_branch_ast_partial (Reader/UnitsDefs.v, definitions only)
+    is in no class, whatever the coarser AST predicates say (cls_stale_recipe flags 100 enumerated ASTs on
+    which the reader is right) *)
+Definition units_test (a : chain) : bool := units_ok (fun _ => None) a.
 Definition class_C05 (braces : bool) (a : chain) : nat :=
-  if cls_ring_in_unit a then 4%nat
+  if units_test a then 0%nat
+  else if cls_ring_in_unit a then 4%nat
   else if cls_nested_in_unit a then 5%nat
   else if cls_stale_recipe a then 10%nat
   else 0%nat.
